@@ -3,6 +3,7 @@ package checks
 import (
 	"crypto/tls"
 	"fmt"
+	"github.com/cybergarage/go-redis/redis/auth"
 	"runtime"
 	"sort"
 	"strings"
@@ -130,6 +131,16 @@ func runC15(t *testing.T, tape *sim.Tape, tier string) *Outcome {
 		}
 	}
 
+	if tlsOn && tape.Draw(3, "cnrule") == 2 {
+		// a third of the TLS runs: a common-name rule and a client whose certificate it rejects (handshake fine,
+		// connection refused afterwards) - never served, so never in the registry
+		cl.Srv.AddAuthenticator(auth.NewCertificateAuthenticatorWith(auth.WithCommonName(pk.RuleName)))
+		for j := 1 + tape.Draw(2, "nrejected"); j > 0; j-- {
+			rc := cl.addTLSClient(fmt.Sprintf("rejected%d", j), tlsAddr, pk.ClientConfig(pk.WrongName), [][]byte{resp.Cmd("PING")})
+			rc.Chunk = tape.Draw(3, "chunkmode")
+		}
+		o.stat("runs_with_rule_and_rejected_tls_clients", 1)
+	}
 	if tlsOn {
 		for j := tape.Draw(3, "ntlsclients"); j > 0; j-- {
 			tc := cl.addTLSClient(fmt.Sprintf("tcli%d", j), tlsAddr, pk.ClientConfig(pk.Right), [][]byte{resp.Cmd("PING")})
